@@ -93,6 +93,16 @@ def b(): return mid() + 2
 def c(): return base() + 3
 def top(): return dds.keep("/g/a", a) + dds.keep("/g/b", b) + dds.keep("/g/c", c)
 ''',
+    "runtime_arg_keep_loads_earlier_sibling": '''
+def fa(): return 1
+def fb(x): return x + dds.load("/g/a")
+def fc(): return dds.load("/g/a") + 5
+def top():
+    a = dds.keep("/g/a", fa)
+    b = dds.keep("/g/b", fb, a)
+    c = dds.keep("/g/c", fc)
+    return b + c
+''',
 }
 # hand-written ground truth of the solid edges for the shapes where a helper is shared through non-kept functions
 SOLID = {
@@ -109,6 +119,7 @@ DASHED = {
     "load_of_grandchild_keep": set(),
     "two_level_shared_helper": set(),
     "shared_helper_three_parents": set(),
+    "runtime_arg_keep_loads_earlier_sibling": {("/g/a", "/g/b"), ("/g/a", "/g/c")},
 }
 
 
